@@ -1048,6 +1048,174 @@ static std::string run_c07(const CaseSpec &cs, const std::vector<std::string> &g
   return "";
 }
 
+// Deterministic boundary streams for the frozen corpus (C05): exact point counts around the index-width thresholds of
+// the sequential coder, large lattices for both Edgebreaker coders, every kd-tree level, wide symbol tables, metadata.
+static std::string write_extra_corpus() {
+  const std::string out = env("VERIF_CORPUS_OUT", "/tmp");
+  int written = 0;
+  auto emit = [&](const std::string &name, const CaseSpec &cs, draco::PointCloud *with_meta = nullptr) -> std::string {
+    std::unique_ptr<draco::PointCloud> pc = build_geometry(cs.g);
+    if (with_meta) {
+      std::unique_ptr<draco::GeometryMetadata> gm(new draco::GeometryMetadata());
+      gm->AddEntryString("name", "frozen");
+      gm->AddEntryInt("answer", 42);
+      gm->AddEntryDoubleArray("d", {1.5, -2.25});
+      std::unique_ptr<draco::Metadata> sub(new draco::Metadata());
+      sub->AddEntryBinary("blob", {1, 2, 3, 0, 255});
+      std::unique_ptr<draco::Metadata> subsub(new draco::Metadata());
+      subsub->AddEntryString("deep", "value");
+      sub->AddSubMetadata("inner", std::move(subsub));
+      gm->AddSubMetadata("group", std::move(sub));
+      std::unique_ptr<draco::AttributeMetadata> am(new draco::AttributeMetadata());
+      am->AddEntryString("semantic", "position");
+      pc->AddMetadata(std::move(gm));
+      pc->AddAttributeMetadata(0, std::move(am));
+    }
+    EncodeResult er = encode_case(cs, *pc);
+    if (!er.status.ok()) return name + ": encode failed: " + er.status.error_msg_string();
+    DecodeResult dr = decode_bytes(er.bytes);
+    if (!dr.status.ok()) return name + ": does not decode: " + dr.status.error_msg_string();
+    FILE *f = fopen((out + "/x_" + name + ".drc").c_str(), "wb");
+    if (!f) return "cannot write";
+    fwrite(er.bytes.data(), 1, er.bytes.size(), f);
+    fclose(f);
+    ++written;
+    return "";
+  };
+  auto int_att = [](int type, int dtype, int ncomp, uint32_t uid, uint32_t n, uint32_t mod) {
+    AttSpec a;
+    a.type = type;
+    a.dtype = dtype;
+    a.ncomp = ncomp;
+    a.unique_id = uid;
+    a.identity = 1;
+    a.nvalues = n;
+    for (uint32_t i = 0; i < n; ++i)
+      for (int c = 0; c < ncomp; ++c) put_scalar(a.data, dtype, (static_cast<uint64_t>(i) * 2654435761u + c * 97) % mod, 0);
+    return a;
+  };
+  std::string e;
+  // (1) sequential meshes with exact point counts, raw and compressed connectivity
+  for (uint32_t n : {255u, 256u, 257u, 65535u, 65536u, 65537u}) {
+    for (int cc : {0, 1}) {
+      CaseSpec cs;
+      cs.g.is_mesh = 1;
+      cs.g.npoints = n;
+      cs.g.atts.push_back(int_att(GeometryAttribute::POSITION, draco::DT_UINT8, 3, 0, n, 251));
+      for (uint32_t f = 0; f < 60; ++f) {
+        const uint32_t a = (f * 7919u) % n, b = (f * 104729u + 1) % n;
+        cs.g.faces.insert(cs.g.faces.end(), {a, b, n - 1 - (f % 3)});
+      }
+      cs.o.api = 1;
+      cs.o.method = 0;
+      cs.o.compress_connectivity = cc;
+      cs.o.per_att.resize(1);
+      cs.o.per_type.resize(5);
+      e = emit("seqmesh_" + std::to_string(n) + "pts_" + (cc ? "compressed" : "raw"), cs);
+      if (!e.empty()) return e;
+    }
+  }
+  // (2) lattices through both Edgebreaker coders
+  for (int exact : {0, 1}) {
+    for (int ebm : {0, 2}) {
+      for (int speed : {0, 3, 7}) {
+        CaseSpec cs;
+        const int n = exact ? 31 : 30;
+        cs.g.is_mesh = 1;
+        AttSpec pos;
+        pos.type = GeometryAttribute::POSITION;
+        pos.dtype = draco::DT_FLOAT32;
+        pos.ncomp = 3;
+        pos.identity = 1;
+        pos.nvalues = static_cast<uint32_t>((n + 1) * (n + 1));
+        for (int i = 0; i <= n; ++i)
+          for (int j = 0; j <= n; ++j) {
+            put_scalar(pos.data, draco::DT_FLOAT32, 0, i);
+            put_scalar(pos.data, draco::DT_FLOAT32, 0, j);
+            put_scalar(pos.data, draco::DT_FLOAT32, 0, exact ? 0 : (i * j) % 5);
+          }
+        cs.g.npoints = pos.nvalues;
+        for (int i = 0; i < n; ++i)
+          for (int j = 0; j < n; ++j) {
+            const uint32_t a = i * (n + 1) + j, b = (i + 1) * (n + 1) + j, c = (i + 1) * (n + 1) + j + 1, d = i * (n + 1) + j + 1;
+            cs.g.faces.insert(cs.g.faces.end(), {a, b, c, a, c, d});
+          }
+        cs.g.atts.push_back(pos);
+        cs.o.api = 1;
+        cs.o.method = 1;
+        cs.o.eb_method = ebm;
+        cs.o.enc_speed = cs.o.dec_speed = speed;
+        AttOpt q;
+        q.qbits = exact ? 5 : 11;
+        cs.o.per_att.assign(1, q);
+        cs.o.per_type.resize(5);
+        e = emit(std::string("lattice_") + (exact ? "exact" : "rough") + "_eb" + std::to_string(ebm) + "_speed" + std::to_string(speed), cs);
+        if (!e.empty()) return e;
+      }
+    }
+  }
+  // (3) kd-tree levels 0..6, with metadata on two of them
+  for (int level = 0; level <= 6; ++level) {
+    CaseSpec cs;
+    cs.g.is_mesh = 0;
+    cs.g.npoints = 300;
+    AttSpec pos;
+    pos.type = GeometryAttribute::POSITION;
+    pos.dtype = draco::DT_FLOAT32;
+    pos.ncomp = 3;
+    pos.identity = 1;
+    pos.nvalues = 300;
+    for (uint32_t i = 0; i < 300; ++i)
+      for (int c = 0; c < 3; ++c) put_scalar(pos.data, draco::DT_FLOAT32, 0, ((i * 2654435761u + c * 40503u) % 10007) / 100.0);
+    cs.g.atts.push_back(pos);
+    cs.g.atts.push_back(int_att(GeometryAttribute::COLOR, draco::DT_UINT8, 3, 1, 300, 256));
+    cs.g.atts.push_back(int_att(GeometryAttribute::GENERIC, draco::DT_INT16, 2, 2, 300, 30000));
+    cs.o.api = 1;
+    cs.o.method = 1;
+    cs.o.enc_speed = cs.o.dec_speed = 10 - level;
+    AttOpt q;
+    q.qbits = 12;
+    cs.o.per_att.assign(3, AttOpt());
+    cs.o.per_att[0] = q;
+    cs.o.per_type.resize(5);
+    draco::PointCloud dummy;
+    e = emit("kdtree_level" + std::to_string(level), cs, (level % 3 == 0) ? &dummy : nullptr);
+    if (!e.empty()) return e;
+  }
+  // (4) wide raw symbol tables: sequential clouds with many distinct 16-bit values, several speeds
+  for (int speed : {0, 5, 10}) {
+    CaseSpec cs;
+    cs.g.is_mesh = 0;
+    cs.g.npoints = 9000;
+    cs.g.atts.push_back(int_att(GeometryAttribute::POSITION, draco::DT_UINT16, 3, 0, 9000, 65521));
+    cs.o.api = 1;
+    cs.o.method = 0;
+    cs.o.enc_speed = cs.o.dec_speed = speed;
+    cs.o.per_att.resize(1);
+    cs.o.per_type.resize(5);
+    cs.o.per_att[0].pred = -2;
+    e = emit("wide_symbols_speed" + std::to_string(speed), cs);
+    if (!e.empty()) return e;
+  }
+  // (5) meshes with metadata through both mesh methods
+  for (int method : {0, 1}) {
+    CaseSpec cs;
+    cs.g.is_mesh = 1;
+    cs.g.npoints = 6;
+    cs.g.atts.push_back(int_att(GeometryAttribute::POSITION, draco::DT_INT16, 3, 0, 6, 17));
+    cs.g.faces = {0, 1, 3, 1, 4, 3, 1, 2, 4, 2, 5, 4};
+    cs.o.api = 1;
+    cs.o.method = method;
+    cs.o.per_att.resize(1);
+    cs.o.per_type.resize(5);
+    draco::PointCloud dummy;
+    e = emit(std::string("metadata_mesh_method") + std::to_string(method), cs, &dummy);
+    if (!e.empty()) return e;
+  }
+  printf("extra corpus streams written: %d\n", written);
+  return "";
+}
+
 static std::string run_mode_inner(const std::string &mode, const CaseSpec &cs, const std::vector<std::string> &classes) {
   if (mode == "gencorpus") return run_gencorpus(cs);
   if (mode == "c07") return run_c07(cs, classes);
@@ -1183,6 +1351,7 @@ int main(int argc, char **argv) {
     if (!from_tokens(t, &cs)) return std::string("bad replay tokens");
     return run_mode(mode, cs, {});
   };
+  h.enumerate = [&](const std::string &) { return write_extra_corpus(); };
   const std::string mode = env("VERIF_MODE", "c01");
   if (mode == "c01") {
     stats().rule =
